@@ -301,7 +301,7 @@ var cacheDocs = []string{
 	"<mjml>\r\n<mj-head>\r\n<mj-raw>\r\n<meta name=\"a\"\r\n content=\"1\">\r\n</mj-raw>\r\n</mj-head>\r\n<mj-body>\r\n<mj-section>\r\n<mj-column>\r\n<mj-raw>\r\n<p>line one\r\nline two</p>\r\n</mj-raw>\r\n<mj-text>LE</mj-text>\r\n</mj-column>\r\n</mj-section>\r\n</mj-body>\r\n</mjml>\r\n",
 	// a document whose head the renderer READS while rendering (mj-class with the name not written last, mj-attributes
 	// defaults, an inline style rule): a cached tree that a render has modified shows up as a different second result
-	`<mjml><mj-head><mj-attributes><mj-class color="#ff0000" name="red" font-size="20px"/><mj-text padding="1px" bogus-default="x"/><mj-all font-family="Arial"/></mj-attributes><mj-style inline="inline">.k { color: blue; }</mj-style><mj-raw><meta name="raw-in-head" content="1"/></mj-raw></mj-head><mj-body><mj-section><mj-column><mj-text mj-class="red" css-class="k">Doc C</mj-text><mj-text>&nbsp;edges kept&#160;</mj-text><mj-text>&#xA0;</mj-text><mj-button href="u">&nbsp;b&nbsp;</mj-button><mj-text color="#00ff00" align="center" bogus="1">Doc C2 <span class="k" style="margin:0">s</span></mj-text><mj-table><tr class="k" style="height:9px"><td style="padding:1px" class="k" align="left">Tom &amp; Jerry, 1 &lt; 2 &#38; 3 &gt; 2</td></tr></mj-table><mj-button href="u"><b class="k" style="top:0">B &amp; b</b> &lt;i&gt;</mj-button><mj-raw><i style="left:0" class="k">r</i></mj-raw><mj-accordion><mj-accordion-element><mj-accordion-title>Q &amp; A</mj-accordion-title><mj-accordion-text>1 &lt; 2</mj-accordion-text></mj-accordion-element></mj-accordion><mj-navbar><mj-navbar-link href="/a?x=1&amp;y=2">N &amp; M</mj-navbar-link></mj-navbar><mj-social><mj-social-element name="facebook" href="h">S &amp; T</mj-social-element></mj-social></mj-column><mj-raw><p>raw between columns</p></mj-raw></mj-section></mj-body></mjml>`,
+	`<mjml><mj-head><mj-attributes><mj-class color="#ff0000" name="red" font-size="20px"/><mj-text padding="1px" bogus-default="x"/><mj-all font-family="Arial"/></mj-attributes><mj-style inline="inline">.k { color: blue; }</mj-style><mj-raw><meta name="raw-in-head" content="1"/></mj-raw></mj-head><mj-body><mj-section><mj-column><mj-text mj-class="red" css-class="k">Doc C</mj-text><mj-text>&nbsp;edges kept&#160;</mj-text><mj-text>&#xA0;</mj-text><mj-button href="u">&nbsp;b&nbsp;</mj-button><mj-text color="#00ff00" align="center" bogus="1">Doc C2 <span class="k" style="margin:0">s</span></mj-text><mj-table><tr class="k" style="height:9px"><td style="padding:1px" class="k" align="left">Tom &amp; Jerry, 1 &lt; 2 &#38; 3 &gt; 2</td></tr></mj-table><mj-button href="u"><b class="k" style="top:0">B &amp; b</b> &lt;i&gt;</mj-button><mj-raw><i style="left:0" class="k">r</i></mj-raw><mj-accordion border="1px solid #aaaaaa" font-family="Georgia" icon-position="left" icon-width="20px" icon-height="20px" icon-align="top" padding="3px"><mj-accordion-element><mj-accordion-title>Q &amp; A</mj-accordion-title><mj-accordion-text>1 &lt; 2</mj-accordion-text></mj-accordion-element></mj-accordion><mj-navbar base-url="https://b.example" ico-color="#123456"><mj-navbar-link href="/a?x=1&amp;y=2">N &amp; M</mj-navbar-link><mj-navbar-link href="rel">R</mj-navbar-link><mj-navbar-link href="#top" padding-top="3px">H</mj-navbar-link></mj-navbar><mj-social inner-padding="7px 3px" icon-size="30px" font-size="11px" color="#123456" border-radius="9px" icon-padding="2px" text-padding="1px 2px" line-height="20px" font-family="Georgia" text-decoration="underline" icon-height="28px"><mj-social-element name="facebook" href="h">S &amp; T</mj-social-element><mj-social-element name="github-noshare" href="g"/><mj-social-element name="x" href="x" padding="1px" color="#654321">own</mj-social-element></mj-social></mj-column><mj-raw><p>raw between columns</p></mj-raw></mj-section></mj-body></mjml>`,
 	// documents that differ only in bytes that are not valid UTF-8 (a comment inside mj-raw, copied byte for byte; a file saved
 	// in Latin-1), and the same with the replacement character written out: a key computed over decoded characters instead
 	// of bytes folds them together
